@@ -223,7 +223,9 @@ class Ctx:
             dfs=False, extra=None, heap=None, outfile=None, count=True, defines=None):
         d = self.specdir(sub)
         meta = tempfile.mkdtemp(prefix="meta-", dir=self.scratch)
-        jopts = ["-XX:+UseParallelGC", "-Xss64m"]
+        jtmp = os.path.join(self.scratch, "jtmp")      # TLC leaves an empty directory per run in java.io.tmpdir
+        os.makedirs(jtmp, exist_ok=True)
+        jopts = ["-XX:+UseParallelGC", "-Xss64m", "-Djava.io.tmpdir=" + jtmp]
         if heap:
             jopts.append("-Xmx" + heap)
         if dfs:
